@@ -1,5 +1,8 @@
 import FitModel.Decode
 import FitProofs.Refine
+import FitProofs.Frame
+import FitProofs.Chain
+import FitModel.Gen.Profile
 /-!
   C10 — framing: a decode consumes exactly one file, however reads are chunked.
 
@@ -49,12 +52,126 @@ theorem chained_step (P : Profile) (o : Opts) (fuel i : Nat) (acc : List FileSt)
        if res.1.panic then ⟨acc, none, true, res.1.st.glob, res.2⟩
        else match res.1.err with
          | some c =>
-           if res.1.st.cleanEOF ∧ i ≠ 0 then ⟨acc, none, false, res.1.st.glob, res.2⟩
+           if res.1.cleanEOF ∧ i ≠ 0 then ⟨acc, none, false, res.1.st.glob, res.2⟩
            else ⟨(match res.1.st.file with | some f => acc ++ [f] | none => acc), some c, false, res.1.st.glob, res.2⟩
          | none =>
            match res.1.st.file with
            | some f => decodeChained P o fuel (i + 1) (acc ++ [f]) res.1.st.glob res.2
            | none => ⟨acc, none, true, res.1.st.glob, res.2⟩) := by
   rfl
+
+/-- **Exact consumption (specification run).** If `Decode` (mode `full`) or `CheckIntegrity`
+    (mode `crcOnly`) succeeds on a stream, it has consumed exactly header size + data size + 2
+    bytes — the frame declared by the stream's own first bytes — whatever follows in the stream. -/
+theorem consumes_exactly (P : Profile) (o : Opts) (m : Mode) (hm : m = .full ∨ m = .crcOnly)
+    (g : Globals) (data : Bytes) (stop : Stop)
+    (h : (decodeSpec P o m g data stop).1.success) :
+    (decodeSpec P o m g data stop).2.taken = frameLen data ∧
+    (decodeSpec P o m g data stop).2.rest = data.drop (frameLen data) := by
+  unfold decodeSpec at h ⊢
+  simp only at h ⊢
+  have hs : (runSpec (decodeProg P m g) { rest := data, stop := stop, taken := 0 }).1.success := by
+    have := finalize_err o (runSpec (decodeProg P m g) { rest := data, stop := stop, taken := 0 }).1
+    unfold Outcome.success at h ⊢
+    rw [this.1, this.2.1] at h
+    exact h
+  have h1 := (prog_consumes_exactly P m hm g _ hs).1
+  have h2 := (runSpec_conserve (decodeProg P m g) { rest := data, stop := stop, taken := 0 }).2.2.1
+  simp only [Nat.zero_add, Nat.sub_zero] at h1 h2
+  exact ⟨h1, by rw [h2, h1]⟩
+
+/-- **Exact consumption (buffered run, any read schedule).** After a successful `Decode` or
+    `CheckIntegrity` the reader has delivered exactly the frame: nothing of what follows has been
+    pulled, however the reads were chunked. -/
+theorem decode_consumes_exactly (P : Profile) (o : Opts) (m : Mode) (hm : m = .full ∨ m = .crcOnly)
+    (g : Globals) (r : Reader) (h : (decode P o m g r).1.success) :
+    (decode P o m g r).2.pos = r.pos + frameLen r.data := by
+  have hr := run_refines (decodeProg P m g) r 0
+  simp only at hr
+  obtain ⟨e1, e2, e3⟩ := hr
+  have hs : (runSpec (decodeProg P m g) { rest := r.data, stop := r.stop, taken := r.pos, frameEnd := 0 }).1.success := by
+    simp only [decode] at h
+    have := finalize_err o (runBuffered (decodeProg P m g) r).1
+    unfold Outcome.success at h ⊢
+    rw [this.1, this.2.1, e1] at h
+    exact h
+  obtain ⟨c1, c2, c3⟩ := prog_consumes_exactly P m hm g _ hs
+  simp only at c1 c3
+  simp only [decode]
+  omega
+
+/-- a non-trivial instance of the hypothesis: a 12-byte header declaring 0 data bytes is consumed
+    as a 14-byte frame by `CheckIntegrity` (kernel-evaluated) -/
+example : frameLen [12, 0x10, 0, 0, 0, 0, 0, 0, 0x2E, 0x46, 0x49, 0x54, 0xAA, 0xBB, 0xCC] = 14 := by decide
+
+/-- **Whatever follows a file is irrelevant to its decode** (the reason a chain can be decoded
+    file by file): a successful decode of `f` gives the same outcome on `f ++ tail` and leaves
+    exactly `tail` more. -/
+theorem decode_ignores_tail (P : Profile) (o : Opts) (m : Mode) (g : Globals) (f tail : Bytes) (stop : Stop)
+    (hs : (decodeSpec P o m g f stop).1.success) :
+    (decodeSpec P o m g (f ++ tail) stop).1 = (decodeSpec P o m g f stop).1 ∧
+    (decodeSpec P o m g (f ++ tail) stop).2.rest = (decodeSpec P o m g f stop).2.rest ++ tail :=
+  spec_append P o m g f tail stop hs
+
+/-- **`DecodeChained` is the chain over the byte list**, whatever the read schedule: files,
+    error, panic flag and final package state are those of decoding file after file, each from
+    where the previous one ended. -/
+theorem chained_eq_chain_over_bytes (P : Profile) (o : Opts) (fuel i : Nat) (acc : List FileSt) (g : Globals)
+    (r : Reader) :
+    (decodeChained P o fuel i acc g r).files = (decodeChainedSpec P o fuel i acc g r.data r.stop).files ∧
+    (decodeChained P o fuel i acc g r).err = (decodeChainedSpec P o fuel i acc g r.data r.stop).err ∧
+    (decodeChained P o fuel i acc g r).panic = (decodeChainedSpec P o fuel i acc g r.data r.stop).panic ∧
+    (decodeChained P o fuel i acc g r).glob = (decodeChainedSpec P o fuel i acc g r.data r.stop).glob :=
+  chained_eq_spec P o fuel i acc g r
+
+/-- **Concatenation.** If `f` alone decodes successfully to file `x` and is exactly one frame long,
+    then the chain over `f ++ tail` is `x` followed by the chain over `tail` (continued from the
+    package state the first decode left). By induction: the chain over a concatenation of valid
+    files is the list of the files decoded one by one. -/
+theorem chained_concat (P : Profile) (o : Opts) (fuel i : Nat) (acc : List FileSt) (g : Globals)
+    (f tail : Bytes) (stop : Stop) (x : FileSt)
+    (hs : (decodeSpec P o .full g f stop).1.success)
+    (hlen : f.length = frameLen f)
+    (hf : (decodeSpec P o .full g f stop).1.st.file = some x) :
+    decodeChainedSpec P o (fuel + 1) i acc g (f ++ tail) stop =
+      decodeChainedSpec P o fuel (i + 1) (acc ++ [x]) (decodeSpec P o .full g f stop).1.st.glob tail stop := by
+  obtain ⟨a1, a2⟩ := spec_append P o .full g f tail stop hs
+  have hrest : (decodeSpec P o .full g f stop).2.rest = [] := by
+    rw [(consumes_exactly P o .full (Or.inl rfl) g f stop hs).2]
+    simp [← hlen]
+  rw [hrest, List.nil_append] at a2
+  rw [decodeChainedSpec]
+  simp only [a1, a2, hs.1, hs.2, hf, Bool.false_eq_true, ↓reduceIte]
+
+/-- A chain ends silently exactly when the input ends on a file boundary. -/
+theorem chained_clean_end (P : Profile) (o : Opts) (fuel i : Nat) (hi : i ≠ 0) (acc : List FileSt) (g : Globals) :
+    (decodeChainedSpec P o (fuel + 1) i acc g [] .eof).files = acc ∧
+    (decodeChainedSpec P o (fuel + 1) i acc g [] .eof).err = none ∧
+    (decodeChainedSpec P o (fuel + 1) i acc g [] .eof).panic = false := by
+  rw [decodeChainedSpec]
+  have e : decodeSpec P o .full g [] .eof =
+      ({ fail (DecSt.init g) .ioerr with cleanEOF := true }, { rest := [], stop := .eof, taken := 0 }) := by
+    simp [decodeSpec, decodeProg, decodeHeader, runSpec, finalize, fail, DecSt.init]
+  simp [e, fail, hi]
+
+/-! ### the hypotheses are satisfiable (kernel-evaluated on the regenerated profile) -/
+
+/-- a minimal valid file: 12-byte header, file_id definition and data (type = activity), file CRC -/
+def minFile : Bytes := [12, 32, 67, 8, 11, 0, 0, 0, 46, 70, 73, 84, 64, 0, 0, 0, 0, 1, 0, 1, 0, 0, 4, 34, 103]
+
+set_option maxRecDepth 100000 in
+/-- `minFile` decodes successfully, is exactly one frame long, and holds a file -/
+example : (decodeSpec Fit.Gen.profile {} .full {} minFile .eof).1.success ∧ minFile.length = frameLen minFile ∧
+    (decodeSpec Fit.Gen.profile {} .full {} minFile .eof).1.st.file.isSome = true := by decide +kernel
+
+set_option maxRecDepth 100000 in
+/-- the chain over two copies yields two files and ends silently on the boundary; over two copies
+    and one stray byte it yields the two files and an error -/
+example :
+    (decodeChainedSpec Fit.Gen.profile {} 5 0 [] {} (minFile ++ minFile) .eof).files.length = 2 ∧
+    (decodeChainedSpec Fit.Gen.profile {} 5 0 [] {} (minFile ++ minFile) .eof).err = none ∧
+    (decodeChainedSpec Fit.Gen.profile {} 5 0 [] {} (minFile ++ minFile ++ [14]) .eof).files.length = 2 ∧
+    (decodeChainedSpec Fit.Gen.profile {} 5 0 [] {} (minFile ++ minFile ++ [14]) .eof).err.isSome = true := by
+  decide +kernel
 
 end Fit.Props.C10
